@@ -759,7 +759,9 @@ func genValidate(emit func(string), tier string, rng *Rng) {
 		devSeq(p, true, nil, "validate", ddi0, fd0, rec(dval(0, 1, proto.SliceUint8(make([]byte, 256)))))
 		devSeq(p, true, nil, "validate", ddi0, fd0, rec(dval(0, 1, proto.SliceUint8(make([]byte, 255)))))
 		devSeq(p, true, nil, "validate", ddi0, fd0, onlyDev(dval(0, 1, proto.Uint8(5))))
-		devSeq(p, true, nil, "validate", ddi0, fd0, onlyDev(dval(0, 1, proto.Uint8(0xff)))) // all developer fields dropped
+		devSeq(p, true, nil, "validate2", ddi0, fd0, onlyDev(dval(0, 1, proto.Uint8(0xff)))) // all developer fields dropped
+		devSeq(p, true, nil, "validate2", ddi0, fd0, proto.Message{Num: mnRecord, Fields: []proto.Field{mkField(1, basetype.Uint8, proto.Uint8(0xff))},
+			DeveloperFields: []proto.DeveloperField{dval(0, 1, proto.Uint8(0xff)), dval(0, 1, proto.SliceUint8([]byte{0xff, 0xff}))}})
 		devSeq(p, true, nil, "validate", ddi0, fd0, resetTok, rec(dval(0, 1, proto.Uint8(5))))
 		devSeq(p, true, nil, "validate", ddi0, resetTok, ddi0, fd0, rec(dval(0, 1, proto.Uint8(5))))
 		// the developer-data-id message without an index field / with an invalid one registers index 255
